@@ -1,0 +1,23 @@
+//! Verification hooks (cargo feature `verif_hooks`, off by default).
+//!
+//! Named scheduling points for an external model-checking harness. With no
+//! callback installed a point is a single `OnceLock::get` and a branch; the
+//! callback, when installed, is invoked synchronously on the calling thread.
+//! Nothing in this module changes what the interpreter computes.
+
+use std::sync::OnceLock;
+
+static CALLBACK: OnceLock<fn(&'static str)> = OnceLock::new();
+
+/// Install the callback invoked at every hook point. Returns false if one
+/// was already installed (the first one stays).
+pub fn install(callback: fn(&'static str)) -> bool {
+    CALLBACK.set(callback).is_ok()
+}
+
+#[inline]
+pub(crate) fn point(site: &'static str) {
+    if let Some(callback) = CALLBACK.get() {
+        callback(site)
+    }
+}
